@@ -16,6 +16,9 @@
         input's name survives only if every array handed to xr.apply_ufunc is the caller's array carried through
         DataArray methods: not re-wrapped in a new, unnamed DataArray and not renamed (apply path incl. the
         boundary-chunk merge; necessary condition for "keeps the input's name"); Grid.cumsum likewise up to its return;
+  R19.7 the dataset       - the coordinates come from the dataset given at construction: only Grid.__init__ binds
+        `Grid._ds` (who-may-write scan over all functions; a later `self._ds = self._ds.set_coords(...)` changes which
+        variables count as coordinates of every later result);
   R19.6 keep_coords       - a multi-axis operation hands the caller's keep_coords to the ufunc of every axis (the last
         call decides which coordinates the result carries).
 Coordinate values/attributes are produced by xarray (not decided); for the name only the lineage condition R19.5 is.
@@ -53,6 +56,7 @@ def check(ctx):
     _strip(ctx, P)
     _name_lineage(ctx, P)
     _keep_coords_every_axis(ctx, P)
+    _dataset_owner(ctx, P)
 
 
 def _pass_through(ctx, P):
@@ -398,3 +402,47 @@ def _keep_coords_every_axis(ctx, P):
             ctx.report("R19.6", fi, inst, bad)
         else:
             ctx.ok("R19.6", inst, "the caller's keep_coords on every axis")
+
+
+def _dataset_owner(ctx, P):
+    import ast
+
+    from ..core import norm, own_nodes
+
+    from ..callgraph import CallGraph
+
+    cg = CallGraph(P)
+    callers = {}
+    for q0, outs_ in cg.edges.items():
+        for callee in outs_:
+            callers.setdefault(callee, set()).add(q0)
+
+    def ctor_only(q, seen=()):
+        """Grid.__init__ itself, or a helper that (transitively) only the constructor calls."""
+        if q == "grid:Grid.__init__":
+            return True
+        cs = callers.get(q, set()) - {q}
+        name = q.rsplit(".", 1)[-1].split(":")[-1]
+        if not cs or q in seen or not name.startswith("_") or name.startswith("__"):
+            return False  # a public method can be called by anybody
+        return all(ctor_only(c, seen + (q,)) for c in cs)
+
+    n = 0
+    bad = False
+    for q, f in P.functions.items():
+        n += 1
+        if ctor_only(q):
+            continue
+        for node in own_nodes(f.node):
+            tgts = node.targets if isinstance(node, ast.Assign) else [node.target] if isinstance(node, (ast.AugAssign, ast.AnnAssign)) else []
+            for t in tgts:
+                for sub in ast.walk(t):
+                    if isinstance(sub, ast.Attribute) and sub.attr == "_ds" and isinstance(sub.ctx, ast.Store):
+                        bad = True
+                        ctx.report("R19.7", f, norm(node, 120), f"{q} re-binds the grid's dataset (`{norm(node, 80)}`): the coordinates attached to every later result are taken from it, "
+                                   "so they no longer are the coordinates of the dataset the Grid was built from", node)
+            if isinstance(node, ast.Call) and isinstance(node.func, ast.Name) and node.func.id == "setattr" and len(node.args) >= 2 and isinstance(node.args[1], ast.Constant) and node.args[1].value == "_ds":
+                bad = True
+                ctx.report("R19.7", f, norm(node, 120), f"{q} re-binds the grid's dataset through setattr", node)
+    if not bad:
+        ctx.ok("R19.7", f"{n} functions scanned for writes of Grid._ds", "only Grid.__init__ binds the dataset")
